@@ -54,8 +54,8 @@ MC_SNAP_FAIL = mc_conc({'MAXOPS': '1', 'TRANSPORT': 'log', 'SNAPFAILS': 'TRUE'},
 MC_SNAP_ASBUILT = mc_conc({'MAXOPS': '1', 'TRANSPORT': 'log', 'SNAPFAILS': 'FALSE'}, {'MAXOPS': '1', 'TRANSPORT': 'log', 'SNAPFAILS': 'TRUE'}, cfg='MC_Snap.cfg', asbuilt=True, thorough_only=True, timeout=3000)
 
 PROPS = {
-    'C01': seq_prop('c01', 150, 2500, mc=[MC_STORE_STRICT, MC_STORE_ASBUILT, MC_STORE_NEG, MC_SCHEMA, MC_SCHEMA_COLS]),
-    'C02': seq_prop('c02', 120, 2000, mc=[MC_ATOMIC], more=[fam('seq', 'c02k', 60, 1000), fam('conc', 'c02', 16, 300)]),
+    'C01': seq_prop('c01', 150, 2500, mc=[MC_STORE_STRICT, MC_STORE_ASBUILT, MC_STORE_NEG, MC_SCHEMA, MC_SCHEMA_COLS], more=[fam('seq', 'c01w', 24, 300)]),
+    'C02': seq_prop('c02', 120, 2000, mc=[MC_ATOMIC], more=[fam('seq', 'c02k', 60, 1000), fam('seq', 'c01w', 16, 200), fam('conc', 'c02', 16, 300)]),
     'C03': seq_prop('c03', 150, 2500, mc=[MC_STORE_STRICT, MC_STORE_ASBUILT, MC_SCHEMA, MC_SCHEMA_COLS]),
     'C04': {'level': 'model_checking', 'mc': [], 'trace': COLUMN_TRACE, 'assumptions': [],
             'families': [
